@@ -1,5 +1,6 @@
 (* C12: model of mempool/src/quorum_waiter.rs: forwarded exactly at the first quorum prefix of acks. *)
 From Coq Require Import List NArith Lia Bool ZifyN ZifyBool.
+From HS Require Import Guards QuorumWaiterDefs.
 Import ListNotations.
 Open Scope N_scope.
 
@@ -7,15 +8,9 @@ Section QW.
   Variable stake : N -> N.
   Variable quorum : N.
 
-  (* the inner `while let Some(stake) = wait_for_quorum.next().await` loop over acks in arrival order *)
-  Fixpoint qw_go (total : N) (acks : list N) (i : nat) : option nat :=
-    match acks with
-    | [] => None
-    | a :: r => let t := total + stake a in if quorum <=? t then Some i else qw_go t r (S i)
-    end.
-  Definition qw (own : N) (acks : list N) : option nat := qw_go own acks 0.
-
-  Fixpoint wsum (l : list N) : N := match l with [] => 0 | x :: r => stake x + wsum r end.
+  Notation qw_go := (qw_go stake quorum).
+  Notation qw := (qw stake quorum).
+  Notation wsum := (wsum stake).
 
   Lemma qw_go_spec : forall acks total i k,
     qw_go total acks i = Some k <->
@@ -23,7 +18,7 @@ Section QW.
               quorum <= total + wsum (firstn (S j) acks) /\
               forall j', (j' < j)%nat -> total + wsum (firstn (S j') acks) < quorum.
   Proof.
-    induction acks as [|a r IH]; intros total i k; cbn [qw_go length].
+    induction acks as [|a r IH]; intros total i k; cbn [QuorumWaiterDefs.qw_go length]; unfold g_qw_threshold.
     - split; [discriminate|]. intros [j [_ [H _]]]. lia.
     - destruct (quorum <=? total + stake a) eqn:E.
       + apply N.leb_le in E. split.
